@@ -412,6 +412,10 @@ func (m *monC14) AfterBlock(w *World) {
 		w.Ref.App.BeginBlocker(cctx, abci.RequestBeginBlock{Header: next, LastCommitInfo: LastCommit()})
 	}); p != "" {
 		w.Violate("C14", "C14/next-beginblock-would-panic/"+haltSite(p)+haltCause(w, haltSite(p)), "state after block %d: BeginBlock of the next height panics: %s", w.Hdr.Height, trunc(p, 200))
+		// no EndBlock ever follows a BeginBlock that panicked (the chain has halted), and the
+		// half-applied state the panic left in this cache is not a state of the chain
+		w.Probe("c14.next-block-probe")
+		return
 	}
 	if p, _ := safely(func() { w.Ref.App.EndBlocker(cctx, abci.RequestEndBlock{Height: next.Height}) }); p != "" {
 		w.Violate("C14", "C14/next-endblock-would-panic/"+haltSite(p)+haltCause(w, haltSite(p)), "state after block %d: EndBlock of the next height panics: %s", w.Hdr.Height, trunc(p, 200))
